@@ -2,7 +2,7 @@
 Decided: weight accounting of update / merge / compress, monotone maintenance of the exact extremes, protection of the extreme
 centroids, rejection of NaN and of invalid queries, clamps of rank and quantile at the extremes, CDF/PMF assembly.
 Not decided: the interpolation arithmetic, monotonicity of rank/quantile between centroids, the centroid-count bound, accuracy."""
-from astu import strip, strip_all, walk, walkp, txt, short, is_this_field, stmts_of, always_throws, functions_by, local_decls
+from astu import C, ctxt, gt_pair, eq_const, strip, strip_all, walk, walkp, txt, short, is_this_field, stmts_of, always_throws, functions_by, local_decls
 from vlib.core import ob
 
 REC = "datasketches::tdigest"
@@ -47,8 +47,8 @@ def obligations(facts):
         nan_first = first.get("k") == "If" and "isnan(value)" in txt(first["c"]) and stmts_of(first["t"]) and stmts_of(first["t"])[0].get("k") == "Return"
         rep("tdigest.update", "tdigest::update:nan-rejected-first", fn, nan_first, "NaN is rejected before any state changes", "update does not start with `if (isnan(value)) return`: a NaN enters the buffer / the extremes (all comparisons with it are false, min/max/rank become meaningless)")
         rep("tdigest.update", "tdigest::update:buffers-value", fn, "buffer_.push_back(value)" in t, "every accepted value is buffered unconditionally", "accepted values are not buffered by an unconditional top-level buffer_.push_back(value): total weight no longer equals the number of accepted values (%s)" % t)
-        rep("tdigest.update", "tdigest::update:min", fn, "(min_=min(min_,value))" in t, "min_ = min(min_, value) on every accepted value", "min_ is not maintained as min(min_, value) on every accepted value (%s)" % t)
-        rep("tdigest.update", "tdigest::update:max", fn, "(max_=max(max_,value))" in t, "max_ = max(max_, value) on every accepted value", "max_ is not maintained as max(max_, value) on every accepted value (%s)" % t)
+        rep("tdigest.update", "tdigest::update:min", fn, C("(min_=min(min_,value))") in t, "min_ = min(min_, value) on every accepted value", "min_ is not maintained as min(min_, value) on every accepted value (%s)" % t)
+        rep("tdigest.update", "tdigest::update:max", fn, C("(max_=max(max_,value))") in t, "max_ = max(max_, value) on every accepted value", "max_ is not maintained as max(max_, value) on every accepted value (%s)" % t)
     # 2 total weight
     fn = one("get_total_weight")
     if fn is not None:
@@ -90,12 +90,12 @@ def obligations(facts):
         rep("tdigest.merge", "tdigest::merge(buffer,weight):adds-weight-once", fn, adds == ["(centroids_weight_+=weight)"], "centroids_weight_ += weight exactly once, unconditionally", "centroids_weight_ is updated by %s at top level (expected exactly one `centroids_weight_ += weight`)" % adds)
         rep("tdigest.merge", "tdigest::merge(buffer,weight):own-centroids-merged", fn, any(x.startswith("copy(centroids_.begin(),centroids_.end(),back_inserter(buffer))") for x in t) and "centroids_.clear()" in t and t.index("centroids_.clear()") > [i for i, x in enumerate(t) if x.startswith("copy(centroids_.begin()")][0] if any(x.startswith("copy(centroids_.begin()") for x in t) else False, "own centroids are copied into the work buffer before being cleared", "own centroids are not copied into the work buffer before centroids_.clear(): their weight stays counted but their values are lost")
         rep("tdigest.merge", "tdigest::merge(buffer,weight):clears-buffer", fn, "buffer_.clear()" in t, "buffer_ is cleared after its values were merged", "buffer_ is not cleared after the merge: its values are counted twice at the next compression")
-        rep("tdigest.merge", "tdigest::merge(buffer,weight):min-monotone", fn, "(min_=min(min_,centroids_.front().get_mean()))" in t, "min_ only decreases (min with the first centroid)", "min_ is not updated as min(min_, first centroid mean): %s" % [x for x in t if x.startswith("(min_=")])
-        rep("tdigest.merge", "tdigest::merge(buffer,weight):max-monotone", fn, "(max_=max(max_,centroids_.back().get_mean()))" in t, "max_ only increases (max with the last centroid)", "max_ is not updated as max(max_, last centroid mean): %s" % [x for x in t if x.startswith("(max_=")])
+        rep("tdigest.merge", "tdigest::merge(buffer,weight):min-monotone", fn, C("(min_=min(min_,centroids_.front().get_mean()))") in t, "min_ only decreases (min with the first centroid)", "min_ is not updated as min(min_, first centroid mean): %s" % [x for x in t if x.startswith("(min_=")])
+        rep("tdigest.merge", "tdigest::merge(buffer,weight):max-monotone", fn, C("(max_=max(max_,centroids_.back().get_mean()))") in t, "max_ only increases (max with the last centroid)", "max_ is not updated as max(max_, last centroid mean): %s" % [x for x in t if x.startswith("(max_=")])
         # protection of the extremes: add_this is only computed under distance(begin,it) != 1 && distance(end,it) != 1
         prot = []
         walkp(fn["body"], lambda n, ps: prot.append([txt(p["c"]).replace(" ", "") for p in ps if p.get("k") == "If"]) if n.get("k") == "Assign" and txt(n["l"]) == "add_this" else None)
-        ok = bool(prot) and all(any("distance(buffer.begin(),it)!=1" in c and "distance(buffer.end(),it)!=1" in c and "&&" in c for c in g) for g in prot)
+        ok = bool(prot) and all(any(C("(distance(buffer.begin(),it)!=1)") in c and C("(distance(buffer.end(),it)!=1)") in c and "&&" in c for c in g) for g in prot)
         rep("tdigest.merge", "tdigest::merge(buffer,weight):extremes-protected", fn, ok, "a centroid is only absorbed when it is neither the second nor the last in the sorted buffer: the extreme centroids stay singletons, so their means are the exact min / max", "the guard that keeps the first and the last centroid as singletons (distance(begin, it) != 1 && distance(end, it) != 1) no longer controls `add_this` (%s): extremes get averaged and min / max stop being exact" % prot)
     # 6 rank guards
     fn = one("get_rank")
@@ -109,15 +109,15 @@ def obligations(facts):
             body = stmts_of(s["t"])
             act = "throw" if always_throws(s["t"]) else ("return " + txt(body[0].get("e"))) if body and body[0].get("k") == "Return" else "?"
             heads.append((txt(s["c"]).replace(" ", ""), act))
-        want = [("is_empty()", "throw"), ("isnan(value)", "throw"), ("(value<min_)", "return 0"), ("(value>max_)", "return 1")]
+        want = [("is_empty()", "throw"), ("isnan(value)", "throw"), (C("(value<min_)"), "return 0"), (C("(value>max_)"), "return 1")]
         rep("tdigest.query", "tdigest::get_rank:guards", fn, heads[:4] == want, "empty and NaN rejected, then rank 0 below min_ and 1 above max_, before anything else", "get_rank starts with %s, expected %s" % (heads[:4], want))
     fn = one("get_quantile")
     if fn is not None:
         st = _top(fn)
         conds = [(txt(s["c"]).replace(" ", ""), ("throw" if always_throws(s["t"]) else ("return " + txt(stmts_of(s["t"])[0].get("e"))) if stmts_of(s["t"]) and stmts_of(s["t"])[0].get("k") == "Return" else "?")) for s in st if s.get("k") == "If"]
-        rep("tdigest.query", "tdigest::get_quantile:range-check", fn, ("is_empty()", "throw") in conds[:1] and any(c in ("((rank<0)||(rank>1))", "((rank<0.0)||(rank>1.0))") and a == "throw" for c, a in conds[:2]), "empty sketch and ranks outside [0, 1] are rejected first", "get_quantile does not reject empty / out-of-range ranks first: %s" % conds[:2])
-        rep("tdigest.query", "tdigest::get_quantile:clamp-min", fn, ("(weight<1)", "return min_") in conds, "quantile of the lowest unit of weight is min_", "no `if (weight < 1) return min_`: quantile(0) is no longer the exact minimum (%s)" % conds)
-        rep("tdigest.query", "tdigest::get_quantile:clamp-max", fn, (("(weight>(centroids_weight_-1))", "return max_") in conds or ("(weight>(centroids_weight_-1.0))", "return max_") in conds), "quantile of the highest unit of weight is max_", "no `if (weight > centroids_weight_ - 1.0) return max_`: quantile(1) is no longer the exact maximum (%s)" % conds)
+        rep("tdigest.query", "tdigest::get_quantile:range-check", fn, ("is_empty()", "throw") in conds[:1] and any(c in (C("((rank<0)||(rank>1))"), C("((rank<0.0)||(rank>1.0))")) and a == "throw" for c, a in conds[:2]), "empty sketch and ranks outside [0, 1] are rejected first", "get_quantile does not reject empty / out-of-range ranks first: %s" % conds[:2])
+        rep("tdigest.query", "tdigest::get_quantile:clamp-min", fn, (C("(weight<1)"), "return min_") in conds, "quantile of the lowest unit of weight is min_", "no `if (weight < 1) return min_`: quantile(0) is no longer the exact minimum (%s)" % conds)
+        rep("tdigest.query", "tdigest::get_quantile:clamp-max", fn, ((C("(weight>(centroids_weight_-1))"), "return max_") in conds or (C("(weight>(centroids_weight_-1.0))"), "return max_") in conds), "quantile of the highest unit of weight is max_", "no `if (weight > centroids_weight_ - 1.0) return max_`: quantile(1) is no longer the exact maximum (%s)" % conds)
     # queries read the centroids only after the buffer was folded in (compress), unless the same expression also counts the buffer
     for qn in ("get_rank", "get_quantile"):
         fq = one(qn)
@@ -150,6 +150,6 @@ def obligations(facts):
         body = [_t(x) for x in stmts_of(loops[0]["b"])] if loops else []
         if loops and not body:
             body = [_t(loops[0]["b"])]
-        ok = bool(loops) and body == ["(buckets[i]-=buckets[(i-1)])"] and txt(loops[0].get("c")).replace(" ", "") == "(i>0)"
+        ok = bool(loops) and body == ["(buckets[i]-=buckets[(i-1)])"] and txt(loops[0].get("c")).replace(" ", "") == C("(i>0)")
         rep("tdigest.query", "tdigest::get_PMF:differences", fn, ok, "PMF = adjacent differences of the CDF, from the back", "PMF loop is %s / %s" % (body, txt(loops[0].get("c")) if loops else "?"))
     return out
